@@ -243,6 +243,15 @@ def run_history(R: Recorder, case: dict[str, Any], verbose: bool = False) -> Non
                             if b is not None and before - b <= exp < clock.now - b or (b is not None and clock.now - b == exp):
                                 flags["boundary"] = True
                 continue
+            if op[0] == "clone":
+                # a receiver is copied after its cached method was already used: the copy is a receiver of its own
+                import copy as _copy
+
+                clone = _copy.copy(receivers[op[1]])
+                clone.name = op[2]
+                receivers[op[2]] = clone
+                R.count("receivers_cloned_after_use")
+                continue
             _, recv, args, fail, *rest = op
             swap = bool(rest and rest[0])  # keyword form only: pass the keywords in the other order
             args = tuple(args)
@@ -507,6 +516,7 @@ def random_case(rng: random.Random) -> dict[str, Any]:
     vals = rng.sample(KEYS8, nkeys)
     hist: list[Any] = []
     twin_pool = rng.random() < 0.3
+    cloned = False
     collide_pool = not twin_pool and rng.random() < 0.2
     if collide_pool:
         vals = rng.sample(COLLIDING, rng.randint(2, 6))  # same type, different values, equal hashes
@@ -518,8 +528,11 @@ def random_case(rng: random.Random) -> dict[str, Any]:
             b = rng.choice([0, 0, 0, 0.0, False])
             if twin_pool:
                 a, b = rng.choice([1, 1.0, True]), rng.choice([1, 1.0, True])  # ==-equal values of different types under both names
-            recv = rng.choice("ABC") if is_method else None
+            recv = rng.choice("ABCD" if cloned else "ABC") if is_method else None
             hist.append(["call", recv, [a, b], rng.random() < 0.06, rng.random() < 0.5])
+            if is_method and not cloned and recv == "A" and rng.random() < 0.3:
+                hist.append(["clone", "A", "D"])
+                cloned = True
     if collide_pool:
         return {"flavour": flavour, "limit": limit, "exp": exp, "form": rng.choice(["pos", "kw"]), "hist": hist, "colliding": True}
     return {"flavour": flavour, "limit": limit, "exp": exp, "form": "kw" if twin_pool and rng.random() < 0.7 else rng.choice(["pos", "pos", "kw"]), "hist": hist}
